@@ -182,11 +182,11 @@ func H_C14_crosslinks() {
 		[]byte{'H'}, refStr("k"), []byte{0x51, 0x91, 'Z'}, // #5: a map whose value refers to #1
 		[]byte{'N'}, refInt(1))
 	msg := refCat([]byte{0x58}, refInt(7),
-		[]byte{0x79, 0x51, 0x91}, // #1: a list that contains itself
+		[]byte{0x79, 0x51, 0x91},                                    // #1: a list that contains itself
 		[]byte{0x72}, refStr("[int"), refInt(5), []byte{0x51, 0x91}, // #2: typed ints, 2nd element refers to #1
 		[]byte{0x71}, refStr("[string"), refStr("s"), // #3
 		obj,
-		[]byte{0x51, 0x94}, // the object again
+		[]byte{0x51, 0x94},                              // the object again
 		[]byte{'H', 0x51, 0x93}, refInt(1), []byte{'Z'}, // #6: a map keyed by a list
 		[]byte{0x51, 0x95})
 	in := make([]byte, len(msg))
